@@ -120,6 +120,11 @@ def big_docs(rng, tier):
         for nest in (D - 2, D - 1, D, D + 1):
             t, ans = big_doc(rng, nest, shape)
             yield D, t, ans(D)
+    # limits whose level stack is gigabytes of (untouched, zero) address space: the byte count of the stack must not be
+    # computed in a type narrower than size_t (round-7 seed C15-11: 2^27 levels x 32 bytes wraps an unsigned int)
+    for D in (1 << 27, (1 << 27) + 3, 1 << 28):
+        t, ans = big_doc(rng, rng.choice([3, 40, 700]), "mixed")
+        yield D, t, ans(D)
 
 
 def gen(rng, tier):
